@@ -102,8 +102,26 @@ Fixpoint after_dot (s : str) : str :=
 (* re.sub(r"[,-.]", "", number): the class is the RANGE ','..'.' = {',', '-', '.'} *)
 Definition strip_punct (s : str) : str := filter (fun c => negb ((44 <=? c) && (c <=? 46))) s.
 
-(* number_to_str(v) on rep = repr(v)  (code after fixes/C08-number-to-str-exponent.patch) *)
+(* number_to_str(v) on rep = repr(v).  Faithful to the pinned code, including its
+   defect for positive exponents: the number of zeroes appended is exp - 1 whatever
+   the number of fraction digits (known finding C08 number-literal-positive-exponent). *)
 Definition number_to_str (rep : str) : result str :=
+  if existsb (N.eqb 101) rep then
+    match split_on 101 rep [] with
+    | [number; exp] =>
+        let digits := strip_punct number in
+        do e <- py_int exp ;
+        let zeroes := repeat 48 (Z.to_nat (Z.abs e - 1)) in
+        if (0 <? e)%Z
+        then Ok (digits ++ zeroes)
+        else Ok (t_zero_dot ++ zeroes ++ digits)
+    | _ => Err ValueError          (* number, exp = v_str.split(e) *)
+    end
+  else Ok rep.
+
+(* what a positional expansion of d.ddde+XX has to be (the proposed repair):
+   the fraction digits use up part of the exponent *)
+Definition number_to_str_repaired (rep : str) : result str :=
   if existsb (N.eqb 101) rep then
     match split_on 101 rep [] with
     | [number; exp] =>
@@ -113,7 +131,7 @@ Definition number_to_str (rep : str) : result str :=
         if (0 <? e)%Z
         then Ok (digits ++ repeat 48 (Z.to_nat (e - Z.of_nat num_dp)))
         else Ok (t_zero_dot ++ repeat 48 (Z.to_nat (Z.abs e - 1)) ++ digits)
-    | _ => Err ValueError          (* number, exp = v_str.split("e") *)
+    | _ => Err ValueError
     end
   else Ok rep.
 
